@@ -21,7 +21,7 @@ const REQUIRED: [&str; 6] = ["AsnType", "Debug", "Clone", "Decode", "Encode", "P
 pub fn bases() -> Vec<(String, Vec<String>)> {
     let mut v: Vec<(String, Vec<String>)> = vec![];
     for (n, t) in feature_modules() {
-        if matches!(n, "class" | "real" | "param" | "with-components" | "containing" | "pattern") {
+        if matches!(n, "class" | "class-hyphenated-field" | "object-fields" | "instance-of" | "param2" | "imports-param" | "real" | "param" | "with-components" | "containing" | "pattern") {
             continue; // outside G for this property (class machinery is what opaque_open_types documents to change)
         }
         v.push((format!("feature:{n}"), vec![t]));
